@@ -400,7 +400,7 @@ def rule_r3_r10(rep, program: Program):
     r = rep.rule("R3", "merge preserves structure; merge arguments and the continuation edge follow the integration direction", floor=9)
     k = program.cls("DynamicIntegrationTransition")
     mg = k.methods["_merge_subtrees"]
-    a, b = mg.params[1], mg.params[2]
+    a, b = mg.params[-2], mg.params[-1]  # (self,) negative sub-tree, positive sub-tree
     rets = [n for n in ast.walk(mg.node) if isinstance(n, ast.Return)]
     call = rets[-1].value
     if not (isinstance(call, ast.Call) and norm(call.func) == "_SubTree"):
